@@ -378,6 +378,9 @@ func (c *V1) Do(op Op) (out Outcome) {
 		return o
 	case OpBatchWrite:
 		in := &v1ddb.BatchWriteItemInput{RequestItems: map[string][]*v1ddb.WriteRequest{}}
+		for _, t := range op.EmptyTables {
+			in.RequestItems[t] = []*v1ddb.WriteRequest{}
+		}
 		for _, e := range op.Batch {
 			wr := &v1ddb.WriteRequest{}
 			if e.Put != nil {
